@@ -10,24 +10,29 @@ CONSTANTS MaxSteps, MaxRace
 VARIABLES hist, fin
 gvars == <<vars, hist, fin>>
 
-Kinds == <<"none", "none", "none", "budget", "threads0", "toobig">>
+BadKinds == {"budget", "threads0", "toobig"}
 H(rec) == hist' = Append(hist, rec) /\ UNCHANGED fin
 Go == ~fin /\ steps < MaxSteps /\ Quiet
 
+\* handle patterns of a round: everybody on A, everybody on B, alternating
+HandlesOf(n, p) == [i \in 1..n |-> CASE p = 1 -> "A" [] p = 2 -> "B" [] OTHER -> (IF i % 2 = 1 THEN "A" ELSE "B")]
+
+\* n attempts, those in B with invalid options of kind bk; `won` = one of the valid attempts
+\* gets the writer (forced when nobody can hold the lock in its way, impossible on a held lock)
 GRace ==
   /\ Go
-  /\ \E n \in 1..MaxRace : \E hs \in [1..n -> Handles] : \E ks \in [1..n -> 1..Len(Kinds)] : \E sp \in BOOLEAN :
-     LET bads == [i \in 1..n |-> Kinds[ks[i]]]
-         badf == [i \in 1..n |-> bads[i] # "none"] IN
-     \E res \in [1..n -> {"ok", "LockBusy", "InvalidArgument"}] :
-       /\ RaceOutcomeOK(res, badf, Held)
-       /\ LET oks == {i \in 1..n : res[i] = "ok"} IN
-          IF oks = {} THEN UNCHANGED <<guard, ws, nextW>>
-          ELSE LET i == CHOOSE i \in oks : TRUE IN
-               /\ ws' = ws \cup {NewWriter(nextW, hs[i])}
-               /\ guard' = [k |-> "w", id |-> nextW] /\ nextW' = nextW + 1
-       /\ steps' = steps + 1 /\ UNCHANGED <<pc, round>>
-       /\ H([op |-> "race", hs |-> hs, bad |-> bads, spawn |-> (sp \/ n > 1)])
+  /\ \E n \in 1..MaxRace : \E p \in 1..3 : \E bk \in BadKinds : \E B \in SUBSET (1..n) : \E won, sp \in BOOLEAN :
+     LET hs == HandlesOf(n, p)
+         bads == [i \in 1..n |-> IF i \in B THEN bk ELSE "none"]
+         good == (1..n) \ B IN
+     /\ (B = {} => bk = "budget")                         \* no duplicates
+     /\ won = (IF Held \/ good = {} THEN FALSE ELSE IF B = {} THEN TRUE ELSE won)
+     /\ IF won
+        THEN /\ ws' = ws \cup {NewWriter(nextW, hs[CHOOSE i \in good : TRUE])}
+             /\ guard' = [k |-> "w", id |-> nextW] /\ nextW' = nextW + 1
+        ELSE UNCHANGED <<guard, ws, nextW>>
+     /\ steps' = steps + 1 /\ UNCHANGED <<pc, round>>
+     /\ H([op |-> "race", hs |-> hs, bad |-> bads, spawn |-> (sp \/ n > 1)])
 
 GNext ==
   \/ GRace
